@@ -13,7 +13,7 @@ import (
 
 func init() {
 	checks["C12"] = checkC12
-	explanations["C12"] = "Structural necessary conditions over everything reachable from cbor.Unmarshal, (*Decoder).Decode, ArrayShift and the convention types' unmarshalers (codec dispatch edges added by hand), every input byte treated as attacker-controlled: (1) G2: each allocation whose size derives from a wire head is dominated by an upper-bound comparison (MaxArrayDecodeLength) whose failing edge returns an error; (2) Unmarshal returns success only after buf.Len() > 0 was false (no trailing bytes), and a byte-string wrapper (Bstr, ByteWrap) reports success only after the reader limited to the declared length was found exhausted; (3) G1: every explicit panic is an SSA artifact, type-shape dependent, exhaustive-switch fallthrough or by-construction (reviewed table), with the head-byte helpers' invariants checked; (4) G3/G4: index/slice expressions the compiler could not prove and stdlib preconditions are guarded; (5) allocations proportional to a CLAIMED rather than a received length are enumerated — they pass clause 1 (bounded by the documented limit) but contradict the property's last sentence, and are carried as known findings. Also (who-may-call): package cbor takes bytes from a reader only with io.ReadFull, a Read into a one-byte array, or through a limited reader; ReadAtLeast/ReadAll/Copy* do not fix the number of bytes consumed. Not decided: termination, exact consumption of a well-formed item, reflect-internal panics, stack depth."
+	explanations["C12"] = "Structural necessary conditions over everything reachable from cbor.Unmarshal, (*Decoder).Decode, ArrayShift and the convention types' unmarshalers (codec dispatch edges added by hand), every input byte treated as attacker-controlled: (1) G2: each allocation whose size derives from a wire head is dominated by an upper-bound comparison (MaxArrayDecodeLength) whose failing edge returns an error; (2) Unmarshal returns success only after buf.Len() > 0 was false (no trailing bytes), and a byte-string wrapper (Bstr, ByteWrap) reports success only after the reader limited to the declared length was found exhausted; (3) G1: every explicit panic is an SSA artifact, type-shape dependent, exhaustive-switch fallthrough or by-construction (reviewed table), with the head-byte helpers' invariants checked; (4) G3/G4: index/slice expressions the compiler could not prove and stdlib preconditions are guarded; (5) allocations proportional to a CLAIMED rather than a received length are enumerated — they pass clause 1 (bounded by the documented limit) but contradict the property's last sentence, and are carried as known findings. Also (who-may-call): package cbor takes bytes from a reader only with io.ReadFull, a Read into a one-byte array, or through a limited reader; ReadAtLeast/ReadAll/Copy* do not fix the number of bytes consumed. Also: a multiplication of a peer-controlled unsigned 64-bit value by a constant is dominated by an upper bound on it (wrap-around before the length limit); today's decodeLen violates this for map heads and is a known finding. Not decided: termination, exact consumption of a well-formed item, reflect-internal panics, stack depth."
 }
 
 func checkC12(c *Ctx, p *Prog, r *Result) {
@@ -155,6 +155,7 @@ func checkC12(c *Ctx, p *Prog, r *Result) {
 
 	// (5) claimed-length allocations
 	c12ClaimedLength(e, p, r, f)
+	c12MulBounded(e, p, r, f)
 }
 
 // c12ClaimedLength enumerates allocations sized by a length the input claims.
@@ -528,6 +529,49 @@ func c12ExactReads(p *Prog, r *Result) {
 				seen[construct]++
 				if seen[construct] > 1 {
 					construct = fmt.Sprintf("%s #%d", construct, seen[construct])
+				}
+				r.table(p, rule, construct, p.instrPos(in), okv, detail)
+			}
+		}
+	}
+}
+
+// c12MulBounded — "C12.length-mul-bounded". The limit on a declared length is
+// worth only what the arithmetic before it leaves intact: a peer-controlled
+// unsigned value that is multiplied before it was compared with an upper bound
+// can wrap around and pass the limit (a map head of 2^63 pairs doubles to 0).
+func c12MulBounded(e *E3, p *Prog, r *Result, f *Flow) {
+	rule := "C12.length-mul-bounded"
+	r.rule(rule, "in package cbor every multiplication of a peer-controlled unsigned 64-bit value by a constant is dominated by an upper bound on that value (<= 2^24), so that it cannot wrap around before the length limit is applied")
+	r.floor(rule, 1)
+	for _, fn := range e.order {
+		if !f.Region[fn] || funcPkgPath(fn) != modulePath+"/cbor" {
+			continue
+		}
+		k := 0
+		for _, b := range fn.Blocks {
+			for _, in := range b.Instrs {
+				bo, ok := in.(*ssa.BinOp)
+				if !ok || bo.Op != token.MUL || !isUnsigned(bo) {
+					continue
+				}
+				x, c := bo.X, bo.Y
+				if _, isC := constInt(x); isC {
+					x, c = c, x
+				}
+				if _, isC := constInt(c); !isC || !e.t.Is(x) {
+					continue
+				}
+				if bt, ok := bo.Type().Underlying().(*types.Basic); !ok || (bt.Kind() != types.Uint64 && bt.Kind() != types.Uint && bt.Kind() != types.Uintptr) {
+					continue
+				}
+				k++
+				construct := fmt.Sprintf("unsigned multiplication #%d in %s", k, p.FuncName(fn))
+				st := f.StateAt(bo)
+				okv := st.Has(Atom("v:ub:" + canon(x)))
+				detail := "operand bounded above before the multiplication"
+				if !okv {
+					detail = "peer-controlled " + canon(x) + " is multiplied before any upper bound on it: the product can wrap around and pass the length limit"
 				}
 				r.table(p, rule, construct, p.instrPos(in), okv, detail)
 			}
